@@ -53,22 +53,31 @@ func (v *logVar) scheduled() bool {
 func toVal(a any) (val, bool) {
 	switch a := a.(type) {
 	case string:
-		n, err := strconv.Atoi(a)
-		if err != nil || n < 0 {
-			return val{}, false
-		}
-		return val{n: n}, true
+		return sv(a), true
 	case vals.List:
-		v := val{list: true}
+		v := lv()
 		ok := true
 		for it := a.Iterator(); it.HasElem(); it.Next() {
-			s, isStr := it.Elem().(string)
-			n, err := strconv.Atoi(s)
-			if !isStr || err != nil {
+			x, isVal := toVal(it.Elem())
+			if !isVal {
 				ok = false
 				break
 			}
-			v.xs = append(v.xs, n)
+			v.xs = append(v.xs, x)
+		}
+		return v, ok
+	case vals.Map:
+		v := val{kind: 'm'}
+		ok := true
+		for it := a.Iterator(); it.HasElem(); it.Next() {
+			k, x := it.Elem()
+			ks, isStr := k.(string)
+			xv, isVal := toVal(x)
+			if !isStr || !isVal {
+				ok = false
+				break
+			}
+			v.mapSet(ks, xv)
 		}
 		return v, ok
 	}
@@ -76,14 +85,21 @@ func toVal(a any) (val, bool) {
 }
 
 func fromVal(v val) any {
-	if !v.list {
-		return strconv.Itoa(v.n)
+	switch v.kind {
+	case 'l':
+		xs := make([]any, len(v.xs))
+		for i, x := range v.xs {
+			xs[i] = fromVal(x)
+		}
+		return vals.MakeList(xs...)
+	case 'm':
+		var kv []any
+		for i, k := range v.keys {
+			kv = append(kv, k, fromVal(v.vs[i]))
+		}
+		return vals.MakeMap(kv...)
 	}
-	xs := make([]any, len(v.xs))
-	for i, x := range v.xs {
-		xs[i] = strconv.Itoa(x)
-	}
-	return vals.MakeList(xs...)
+	return v.s
 }
 
 func (v *logVar) Set(a any) error {
@@ -146,7 +162,7 @@ func cause(err error) string {
 		return fmt.Sprintf("setfail:%d", r.x)
 	case errs.ArityMismatch:
 		return "arity"
-	case errs.OutOfRange:
+	case errs.OutOfRange, errs.BadValue:
 		return "elemerr"
 	}
 	var se setErr
@@ -158,8 +174,10 @@ func cause(err error) string {
 			return fmt.Sprintf("unsetfail:%d", se.x)
 		}
 	}
-	if strings.Contains(r.Error(), "index") || strings.Contains(r.Error(), "assoc") {
-		return "elemerr"
+	for _, m := range []string{"index", "assoc", "no such key", "not indexable", "must be", "slice"} {
+		if strings.Contains(r.Error(), m) {
+			return "elemerr"
+		}
 	}
 	return "other:" + strings.ReplaceAll(r.Error(), " ", "_")
 }
@@ -174,11 +192,7 @@ func (r *runState) slotOf(x int) slot {
 		if !ok {
 			return slot{}
 		}
-		v, ok := toVal(s)
-		if !ok {
-			return slot{true, val{n: -1}}
-		}
-		return slot{true, v}
+		return slot{true, sv(s)}
 	}
 	vr := r.ov[x]
 	if vr == nil {
@@ -186,7 +200,7 @@ func (r *runState) slotOf(x int) slot {
 	}
 	v, ok := toVal(vr.Get())
 	if !ok {
-		return slot{true, val{n: -1}}
+		return slot{true, sv("?")}
 	}
 	return slot{true, v}
 }
@@ -224,7 +238,7 @@ func execute(p *program) result {
 		case 'E':
 			name := fmt.Sprintf("C21_%d", x)
 			if d.init.set {
-				os.Setenv(name, d.init.v.String())
+				os.Setenv(name, d.init.v.s)
 			} else {
 				os.Unsetenv(name)
 			}
@@ -240,6 +254,14 @@ func execute(p *program) result {
 			r.next++
 			r.log = append(r.log, fmt.Sprintf("E%d.%d", g, k))
 			return strconv.Itoa(g)
+		},
+		// ticker n: a condition for `while` that holds n times
+		"ticker": func(n int) eval.Callable {
+			left := n
+			return eval.NewGoFn("tick", func() bool {
+				left--
+				return left >= 0
+			})
 		},
 		"at": func(g string, k int) {
 			r.log = append(r.log, fmt.Sprintf("@%s.%d", g, k))
